@@ -1292,6 +1292,33 @@ func runC17(c *Ctx) error {
 		}
 	}
 
+	// short circuit, on purpose: a right operand that must not be consulted when the left one decides (the custom filter
+	// panics on some sites) next to every kind of left operand, and the mirrored order
+	{
+		boom := -1
+		for k, a := range c17Atoms {
+			if a.cust {
+				boom = k
+			}
+		}
+		for pat := 0; pat < 2 && boom >= 0; pat++ {
+			for k, a := range c17Atoms {
+				if a.bad || a.cust || (!c.Thorough && k%2 == 1) {
+					continue
+				}
+				at := func() *fx { return &fx{Op: "Atom", Atom: k} }
+				bm := func() *fx { return &fx{Op: "Atom", Atom: boom} }
+				for _, e := range []*fx{
+					{Op: "Or", Args: []*fx{at(), bm()}}, {Op: "And", Args: []*fx{at(), bm()}},
+					{Op: "Or", Args: []*fx{{Op: "Not", Args: []*fx{at()}}, bm()}}, {Op: "And", Args: []*fx{{Op: "Not", Args: []*fx{at()}}, bm()}},
+					{Op: "Or", Args: []*fx{bm(), at()}},
+				} {
+					add(e, pat, "ir", "short-circuit")
+				}
+			}
+		}
+	}
+
 	for pat := 0; pat < 2; pat++ {
 		var es []*fx
 		for _, cs := range cases {
